@@ -377,8 +377,18 @@ theorem meanAbs_eq_zero_iff [∀ a b : ℝ, Decidable (a < b)] (l : List ℝ) (h
       rw [hall x hx]; simp
     rw [this]; simp
 
-theorem coefOfColumn_nonneg [∀ a b : ℝ, Decidable (a < b)] (col : List ℝ) : 0 ≤ coefOfColumn col :=
-  div_nonneg (std_nonneg col) (meanAbs_nonneg col)
+/-- over the reals the guarded quotient is the plain quotient (`x / 0 = 0` in Lean); the guard matters in `Float` -/
+theorem coefOfColumn_eq_raw [∀ a b : ℝ, Decidable (a < b)] (col : List ℝ) : coefOfColumn col = coefOfColumnRaw col := by
+  unfold coefOfColumn coefOfColumnRaw
+  split
+  · rfl
+  · rename_i h
+    have h0 : meanAbs col = 0 := le_antisymm (not_lt.mp (by simpa using h)) (meanAbs_nonneg col)
+    rw [h0]; simp
+
+theorem coefOfColumn_nonneg [∀ a b : ℝ, Decidable (a < b)] (col : List ℝ) : 0 ≤ coefOfColumn col := by
+  rw [coefOfColumn_eq_raw]
+  exact div_nonneg (std_nonneg col) (meanAbs_nonneg col)
 
 theorem forcesVariationCoef_nonneg [∀ a b : ℝ, Decidable (a < b)] (ref : ℝ) (hr : 0 ≤ ref)
     (natoms : ℕ) (clc : Option (Results ℝ)) :
